@@ -517,7 +517,7 @@ func c10Nontrivial(in c10Input) bool {
 }
 
 func runC10(seed int64, n int, tier string, outDir string) (*Report, error) {
-	rep := &Report{Rule: "native: every sequence of <=3 entries (quick; <=4 for Object/Activity/IntransitiveActivity; thorough <=4, <=5 for Activity/IntransitiveActivity, <=6 for Object) over {A, scheme+case+slash variant of A, B, embedded actor with id B, nil} cut in every way into to/cc/bto/bcc/audience, for each of the 13 kinds with Recipients(), times actor in {none, A', actor B} for intransitive activities and questions, times (type, object) in {(Create,A), (Block,A), (Block,actor B), (Block,none)} for activities; random beyond (lists up to 8 from a 13-id pool with 6 classes, embedded objects/actors/collections in value and pointer form, public collection, nil and typed nil entries, empty and nil lists); oracle: reference URL normal form + first-mention rule + DeepEqual of the whole value. Coq: sampled random inputs, a regular sample of the enumerated inputs, an odd stream (id-less objects, nested lists, links of every self-description, empty and '-' IRIs, typed nil pointers), ItemCollectionDeduplication on 1-4 lists, removeFromCollection, transitivity of the modelled comparison on the pool. non-trivial = at least two entries in total; distinct by canonical model term"}
+	rep := &Report{Rule: "native: every sequence of <=3 entries (quick; <=4 for Object/Activity/IntransitiveActivity; thorough <=4, <=5 for Activity/IntransitiveActivity, <=6 for Object) over {A, scheme+case+slash variant of A, B, embedded actor with id B, nil} cut in every way into to/cc/bto/bcc/audience, for each of the 13 kinds with Recipients(), times actor in {none, A', actor B} for intransitive activities and questions, times (type, object) in {(Create,A), (Block,A), (Block,actor B), (Block,none)} for activities; random beyond (lists up to 8 from a 13-id pool with 6 classes, embedded objects/actors/collections in value and pointer form, public collection, nil and typed nil entries, empty and nil lists); oracle: reference URL normal form + first-mention rule + DeepEqual of the whole value. Coq: sampled random inputs, a regular sample of the enumerated inputs, an odd stream (id-less objects, nested lists, links of every self-description, empty and '-' IRIs, typed nil pointers), ItemCollectionDeduplication on 1-4 lists, removeFromCollection, transitivity of the modelled comparison on the pool and membership of every addressee id of the pool in the domain of C14 (iri_dom). non-trivial = at least two entries in total; distinct by canonical model term"}
 	g := NewGen(seed, "C10")
 	ids := append([]string{}, c10Pool...)
 	ids = append(ids, "http://EXAMPLE.com/actors/alice/", "https://example.com/things/1", "", "-")
@@ -706,8 +706,15 @@ func runC10(seed int64, n int, tier string, outDir string) (*Report, error) {
 
 	// (6) Coq: the hypothesis of the instantiated theorems - the modelled comparison is reflexive, symmetric and
 	// transitive on the pool every case draws its ids from
-	hdr4 := "From AP.Model Require Import Prelude Vocab Pred IriEq Recip.\n" +
-		"Definition ok (l : list bytes) : bool := refl_on ideq l && sym_on ideq l && trans_on ideq l.\n"
+	// and the hypothesis of the C10_code_*_domain theorems: every addressee id of the pool (everything but the
+	// nil-like "" and "-", which IsNil filters out before any comparison) lies in the domain of C14 (iri_dom), where
+	// transitivity is a theorem (C10_trans_on_domain) and equivalence is equality of normal forms
+	hdr4 := "From AP.Model Require Import Prelude Vocab Pred IriEq IriNf Recip.\n" +
+		"Definition addressee (s : bytes) : bool := negb (bytes_eqb s []) && negb (bytes_eqb s (B \"-\")).\n" +
+		"Definition ok (l : list bytes) : bool := refl_on ideq l && sym_on ideq l && trans_on ideq l\n" +
+		"  && forallb iri_dom (filter addressee l)\n" +
+		"  && forallb (fun a => forallb (fun b => Bool.eqb (ideq a b) (nf_eqb (nf false a) (nf false b))) (filter addressee l)) (filter addressee l)\n" +
+		"  && Nat.eqb (length (filter addressee l) + 2) (length l).\n"
 	cw4 := NewCaseWriter(outDir, "Cases_C10_pool", hdr4, "list bytes")
 	parts := make([]string, len(ids))
 	for i, s := range ids {
